@@ -383,6 +383,32 @@ CLAIMED["C03"] = {
     "floating point.",
 }
 
+CLAIMED["C09"] = {
+    "text": "Partial claim (the deterministic half of C09), proved for all "
+    "pool sizes and index lists: AnalyticProposal.populate / draw, "
+    "RejectionProposal.populate / compute_weights and FlowProposal.draw "
+    "keep the pool invariant (indices pairwise distinct and in range; every "
+    "row inside the prior bounds with logP = the model's log-prior and logL "
+    "= the model's log-likelihood at its point); an analytic pool has "
+    "exactly the requested size, a prior-rejection pool at most that size; "
+    "the row handed out is a pool row whose index leaves the list, so no "
+    "row is handed out twice, and `populated` is exactly 'indices left'. "
+    "The likelihood is only ever evaluated on in-bounds / in-unit-hypercube "
+    "points (a REQUIRES clause of the abstract likelihood contract, proved "
+    "at every call site: AnalyticProposal / RejectionProposal.populate, "
+    "ImportanceNestedSampler.draw_n_samples). "
+    "FlowProposal.backward_pass returns in-bounds points only and "
+    "ImportanceFlowProposal.draw keeps unit-hypercube points only (shared "
+    "with C08 / C03).",
+    "note": "NOT decided: that the pool is distributed as the prior "
+    "restricted to the contour (a statement about probability measures; no "
+    "contract here expresses it), the radially truncated latent samplers "
+    "(numerics), FlowProposal.populate itself (ASSUMED to fill exactly N "
+    "rows satisfying the pool invariant: its rejection loop is not under "
+    "contract), the augmented / GW / clustering proposals, "
+    "ImportanceNestedSampler.populate_live_points.",
+}
+
 NA = {
     "C06": "statistical calibration over seeds: no pre/post-condition on a "
     "function expresses a distributional claim and no deductive back end "
